@@ -254,5 +254,60 @@ def match_known(entry, v):
 
 
 def replay(ctx, case):
-    print(case.get("input", case))
-    return 0
+    """Re-evaluate the recorded pixel (or scan) on the current tree: hit/miss, ellipsoid equation, nearer intersection,
+    lon/lat/alt termination and altitude.  Violations that depend on the history of a ScanGeometry object or on other
+    clauses are reproduced by check.py re-running the recorded seed."""
+    from pyorbital import geoloc, orbital
+    inp = case.get("input", case)
+    if "line1" not in inp:
+        print(inp)
+        return 0
+    o = orbital.Orbital("x", line1=inp["line1"], line2=inp["line2"])
+    t = dt.datetime.fromisoformat(inp["utc"])
+    p, v = [np.array(x, dtype=float) for x in o.get_position(t, normalize=False)]
+    rpy = tuple(inp.get("rpy", (0.0, 0.0, 0.0)))
+    if "fovs" in inp:
+        fovs = np.array(inp["fovs"], dtype=float)
+    elif "fx" in inp and "fy" in inp:
+        fovs = np.array([[inp["fx"]], [inp["fy"]]], dtype=float)
+    else:
+        print("no scan angles recorded", inp)
+        return 0
+    k = fovs.shape[1]
+    sg = geoloc.ScanGeometry(fovs, np.zeros(k))
+    times = np.array([np.datetime64(t)] * k)
+    with np.errstate(invalid="ignore"):
+        pix = geoloc.compute_pixels(o, sg, times, rpy)
+    vecs = sg.vectors(np.repeat(p.reshape(3, 1), k, axis=1), np.repeat(v.reshape(3, 1), k, axis=1), *rpy)
+    bad = 0
+    s_ = np.array([1 / A_E, 1 / A_E, 1 / B_E])
+    for j in range(k):
+        vec = vecs[:, j]
+        ps, vs = p * s_, vec * s_
+        qa, qb, qc = float(vs @ vs), 2 * float(ps @ vs), float(ps @ ps) - 1
+        disc = qb * qb - 4 * qa * qc
+        px = pix[:, j]
+        if abs(np.linalg.norm(vec) - 1.0) > 1e-12:
+            bad += 1
+        if disc < -1e-9:
+            bad += 0 if np.all(np.isnan(px)) else 1
+        elif disc > 1e-9:
+            if np.any(np.isnan(px)):
+                bad += 1
+            else:
+                eq = px[0] ** 2 / A_E ** 2 + px[1] ** 2 / A_E ** 2 + px[2] ** 2 / B_E ** 2
+                ref = p + (-qb - math.sqrt(disc)) / (2 * qa) * vec
+                if abs(eq - 1) > 1e-9 or np.linalg.norm(px - ref) > 1e-6:
+                    bad += 1
+    try:
+        lla = with_watchdog(20, lambda: geoloc.get_lonlatalt(pix, times))
+        for j in range(k):
+            miss = bool(np.isnan(pix[0, j]))
+            alt = float(lla[2][j])
+            if miss != math.isnan(alt) or (not miss and abs(alt) > 0.010):
+                bad += 1
+    except Timeout:
+        print("get_lonlatalt does not return")
+        bad += 1
+    print("pixels", pix.tolist(), "violations", bad)
+    return 1 if bad else 0
